@@ -219,8 +219,6 @@ def _slice(res, L, case, t, part, nz):
                 r, c = V.rows[i], V.cols[j]
                 if V.is_diff(r) and V.is_diff(c):
                     continue
-                if np.isnan(g[i, j]):
-                    continue
                 if not all(a in pos_r for a in r[1] + r[2]) or \
                         not all(a in pos_c for a in c[1] + c[2]):
                     continue  # an addend is hidden: cannot be recomputed from visible cells
@@ -228,6 +226,15 @@ def _slice(res, L, case, t, part, nz):
                                                                      for a in r[2])
                 cols_first = sum(g[i, pos_c[a]] for a in c[1]) - sum(g[i, pos_c[a]]
                                                                      for a in c[2])
+                if np.isnan(g[i, j]):
+                    # unavailable is right only if one of the two accumulations is: a NaN
+                    # elsewhere in the table (a cell that is no term of this intersection)
+                    # must not reach it
+                    okn = np.isnan(rows_first) or np.isnan(cols_first)
+                    res.check("b_intersection", bool(okn), "b/%s/nan_from_non_term" % attr,
+                              None if okn else {"at": [i, j], "rows_first": float(rows_first),
+                                                "cols_first": float(cols_first)})
+                    continue
                 ok = (abs(g[i, j] - rows_first) <= 1e-9 * max(1, abs(g[i, j]))
                       and abs(g[i, j] - cols_first) <= 1e-9 * max(1, abs(g[i, j])))
                 res.check("b_intersection", ok, "b/%s" % attr,
